@@ -235,3 +235,56 @@ def float_forms(outs, insyms):
             else: rows[k] = v
         else: rows[k, K] = float(o)
     return rows
+
+def path_consistency(res, harness, fn, spec, insyms, out_index, tolabs, label, cex, max_paths=48, max_steps=200_000_000):
+    """A map that must be ONE linear map for every input but whose control flow depends on the data: enumerate feasible paths (up to max_paths); the path taken by a generic
+    point is the reference; on every other path z3 (QF_LRA) searches the path's region (within |x_j| <= 1) for an input where some output differs from the reference path's
+    linear form by more than tolabs.  Returns (ok, reference path record or None); a found input is handed to cex(xv, why)."""
+    mod, so = load(harness); Z = {s_: z3.Real(s_) for s_ in insyms}
+    gen = {s_: Fraction(3, 10) + Fraction(int(1000 * math.sin(1.3 + 0.7 * i)), 10007) for i, s_ in enumerate(insyms)}
+    def setup(m):
+        args = []; ptrs = []
+        for k, v in spec:
+            if k in ('i32', 'i64', 'f64'): args.append(v)
+            elif k == 'pf64': p = m.alloc_doubles(v, 'arg'); args.append(p); ptrs.append((k, p, len(v)))
+            else: p = m.alloc_ints(v, 32, 'arg'); args.append(p); ptrs.append((k, p, len(v)))
+        return args, ptrs
+    recs = []; budget = False
+    sub = [(Z[s_], z3.RealVal(gen[s_])) for s_ in insyms]
+    for p in explore(mod, '@' + fn, setup, max_paths=max_paths, max_steps=max_steps, guide=sub):
+        if p.out == 'pathbudget': budget = True; break
+        res.absorb(p.m)
+        if p.out in ('throw', 'ub'):
+            rr, mdl = p.m.check_model(z3.BoolVal(True)); cex([model_float(mdl, s_, 0.25) for s_ in insyms], f'{label}: a data-dependent path ends in {p.out} {str(p.err)[:160]}'); return False, None
+        if p.out != 'ret': res.inc(f'{label}: path {p.out}: {p.err}'); continue
+        ys = read_outs(p.m, p.ctx)[out_index]
+        n = p.ret if isinstance(p.ret, int) else len(ys)
+        try: rows = linear_forms(ys[:max(n, 0)])
+        except NonLinear as e: res.inc(f'{label}: a path is not linear in the inputs: {e}'); continue
+        recs.append((list(p.m.pc), rows, n, p.m))
+    ref = None
+    for rec in recs:
+        if all(z3.is_true(z3.simplify(z3.substitute(c, *sub))) for c in rec[0]): ref = rec; break
+    if ref is None:
+        res.inc(f'{label}: data-dependent control flow and the path of a generic input was not among the first {max_paths} paths'); return False, None
+    for (pc, rows, n, m_) in recs:
+        if rows is ref[1]: continue
+        sol = z3.SolverFor('QF_LRA'); sol.set('timeout', 60000); sol.add(*pc)
+        for z in Z.values(): sol.add(z >= -1, z <= 1)
+        if n != ref[2]:
+            if sol.check() == z3.sat:
+                mdl = model_dict(sol); cex([model_float(mdl, s_, 0.0) for s_ in insyms], f'{label}: a data-dependent path returns {n} values instead of {ref[2]}'); return False, ref
+            continue
+        for k, (row, rr) in enumerate(zip(rows, ref[1])):
+            keys = set(row) | set(rr); coef = {s_: row.get(s_, 0) - rr.get(s_, 0) for s_ in keys}
+            if sum(abs(c) for c in coef.values()) <= tolabs: continue
+            diff = z3.Sum([z3.RealVal(c) * (Z[s_] if s_ != 1 else z3.RealVal(1)) for s_, c in coef.items() if c != 0])
+            sol.push(); sol.add(z3.Or(diff > z3.RealVal(tolabs), -diff > z3.RealVal(tolabs))); c = sol.check(); res.queries += 1
+            if c == z3.sat:
+                mdl = model_dict(sol); sol.pop()
+                cex([model_float(mdl, s_, 0.0) for s_ in insyms], f'{label}: the result depends on the data beyond linearity: on a path with {len(pc)} conditions output {k} differs from what the generic path computes'); return False, ref
+            sol.pop()
+            if c != z3.unsat: res.inc(f'{label}: path-consistency query unknown'); return False, ref
+        res.ob(True, 'LRA', f'{label}: a data-dependent path ({len(pc)} conditions) computes the same linear map as the generic path on its whole region')
+    if budget: res.inc(f'{label}: more than {max_paths} data-dependent paths (those explored agree with the generic path)'); return False, ref
+    return True, ref
